@@ -402,6 +402,22 @@ func richCase(s string, width int, pattern uint) {
 			}
 			r.Count("draws", 1)
 		}
+		// the application restyles the segments in place (same slice) and draws the same widget again
+		if !strings.Contains(s, "\t") {
+			for i := range rt.Content {
+				rt.Content[i].Style = styles[(in[i].style+1)%len(styles)]
+			}
+			surf, err := rt.Draw(ctx(uint16(width), 65535))
+			if err != nil {
+				report("richtext.Draw", s, width, lines, "draw|error")
+				return
+			}
+			if why := checkSurface(surf, lines, width, 65535, func(g gr) vaxis.Style { return styles[(g.style+1)%len(styles)] }); why != "" {
+				report("richtext.Draw", s, width, lines, "after-restyling-in-place|"+why)
+				return
+			}
+			r.Count("draws", 1)
+		}
 	}
 }
 
@@ -474,7 +490,7 @@ func main() {
 		Transitions: r.Get("plain_scans") + r.Get("rich_scans"),
 		Traces:      cases,
 		Evaluations: cases,
-		Rule:        "every string of <= n symbols over {a,b,SP,-,LF,CRLF,世,e+U+0301,TAB} x width 0..9, plain scanner + Text.Draw at heights {unbounded,1,2,unbounded} on one widget instance that was first drawn at width+1; rich scanner with every 2-colouring (<=4 graphemes) or 3 colour patterns, hard-wrap scanner, RichText.Draw (one instance, first drawn at width+1); distinct = distinct (width, emitted line list) outcomes that passed all clauses",
+		Rule:        "every string of <= n symbols over {a,b,SP,-,LF,CRLF,世,e+U+0301,TAB} x width 0..9, plain scanner + Text.Draw at heights {unbounded,1,2,unbounded} on one widget instance that was first drawn at width+1; rich scanner with every 2-colouring (<=4 graphemes) or 3 colour patterns, hard-wrap scanner, RichText.Draw (one instance, first drawn at width+1, finally redrawn after its segments were restyled in place); distinct = distinct (width, emitted line list) outcomes that passed all clauses",
 		Exhaustive:  true,
 		Bounds:      map[string]any{"max_len_symbols": maxLen, "alphabet": alphaName, "widths": "0..9"},
 		Assumptions: []string{"grapheme widths are those of uniseg (vaxis.Characters)", "letters = alphabetic non-ideographic graphemes; a break between ideographs is legitimate (UAX #14)"},
